@@ -15,6 +15,7 @@ Require Import MW.Ledger.Model MW.Ledger.Spec MW.Ledger.Run MW.Ledger.WF MW.Ledg
 Require Import MW.Ledger.Proofs MW.Ledger.ImportProofs.
 Require Import MW.Ledger.Proofs3 MW.Ledger.Proofs4 MW.Ledger.Proofs5 MW.Ledger.ImportProofs2.
 Require Import MW.Ledger.RemoveProofs MW.Ledger.ImportProofs3.
+Require Import MW.Ledger.ImportProofs4 MW.Ledger.ImportProofs5 MW.Ledger.ImportProofs6.
 
 (* ------------------------------------------------------------------ T1: import = live *)
 
@@ -37,7 +38,9 @@ Require Import MW.Ledger.RemoveProofs MW.Ledger.ImportProofs3.
    left before), announcements processed (extensions, reorganisations with the cursor pull-back,
    roll-backs to an old block) between batches, batches that find the node on a chain the handler has
    not been told about yet.  Other wallets in the same database (with their own history, and transactions
-   SHARED with the restored wallet): C07_import_equals_live_multi / C07_import_frame_* at the end of this file. *)
+   SHARED with the restored wallet): C07_import_equals_live_multi / C07_import_frame_* near the end of this file;
+   the start state of those reached from genesis: C07_import_equals_live_from_genesis; a shared transaction is
+   recorded once: C07_records_once_multi; a SECOND wallet restored while the first rescan runs: C07_two_imports_equal_live. *)
 Theorem C07_import_equals_live_partial : forall fx p B c w own st0 j,
   wf_chain c -> 0 < B -> importing p c w own 0 st0 ->
   let st := batches fx p B c st0 w j in
@@ -701,3 +704,285 @@ Theorem C07_import_skips_recorded_tx_refuted :
     r_total (xreport (fst (import_batch repaired p0 1000 (xs_node s_pre) st1 2)) 2) = 40.
 Proof. cbv zeta. eexists. split; [vm_compute; reflexivity|]. vm_compute. repeat split; reflexivity. Qed.
 Print Assumptions C07_import_skips_recorded_tx_refuted.
+
+(* ================================================================== the start state is REACHABLE (Ledger/ImportProofs4.v) *)
+
+(* The *_multi theorems above take the start state as a premise ([minv] with w absent).  Here: EVERY state reached
+   from the initial state (no wallet, synced to the node's chain n0) by ANY history of
+     XNewWallet v pass     CreateWallet (a name in use: refused, nothing changes),
+     XNewAddr sh v         NewAddress for a wallet that exists (status ready), the address not paid by any block
+                           the node has had so far (A = n0 and every block attached since: E3 of C01,
+                           [owners_before_paid]: an address is issued before a block pays it),
+     XAttach b / XDetach / XProcess b   as in [xwf],
+     XBatch v              (a no-op: every wallet is ready)
+   — [gwf p g U B cap A s h], the environment assumption event by event — satisfies that premise for EVERY wallet
+   name w that is absent, for the chain c the handler follows. *)
+Theorem C07_reachable_start : forall p g U, (forall b1 b2, In b1 U -> In b2 U -> b_id b1 = b_id b2 -> b1 = b2) ->
+  forall B cap n0 h, ninv g U n0 -> gwf p g U B cap n0 (xinit_sim n0) h ->
+  let s := xrun repaired p B cap n0 h in
+  forall w, status_of (xs_st s) w = None ->
+  exists c, minv p g U w (x_keys (xs_st s)) c (xs_st s) /\ (forall sh, ownW w (x_keys (xs_st s)) sh = None) /\
+            ninv g U (xs_node s) /\ xs_crashed s = false.
+Proof. exact reach_minv. Qed.
+Print Assumptions C07_reachable_start.
+
+(* ... and its block records list no transaction twice and hold one record per height *)
+Theorem C07_reachable_records_nodup : forall p g U, (forall b1 b2, In b1 U -> In b2 U -> b_id b1 = b_id b2 -> b1 = b2) ->
+  forall B cap n0 h, ninv g U n0 -> gwf p g U B cap n0 (xinit_sim n0) h ->
+  brs_nodup (x_brecs (xs_st (xrun repaired p B cap n0 h))).
+Proof. exact reach_brs_nodup. Qed.
+Print Assumptions C07_reachable_records_nodup.
+
+(* import = live with other wallets, from genesis: h1 creates the other wallets, issues their addresses and lets
+   them follow the moving chain; then w (absent so far, its script hashes unknown to the keystore table) is
+   restored; then ANY history h2 of [xwf].  No premise about the state is left. *)
+Theorem C07_import_equals_live_from_genesis : forall p g U, (forall b1 b2, In b1 U -> In b2 U -> b_id b1 = b_id b2 -> b1 = b2) ->
+  forall B cap, 0 < B -> forall n0 h1, ninv g U n0 -> gwf p g U B cap n0 (xinit_sim n0) h1 ->
+  forall w pass sh shs, status_of (xs_st (xrun repaired p B cap n0 h1)) w = None ->
+  (forall s, In s (sh :: shs) -> lookupN (x_keys (xs_st (xrun repaired p B cap n0 h1))) s = None) ->
+  forall h2, xwf p g U w B cap (xstep repaired p B cap (xrun repaired p B cap n0 h1) (XImportStart w pass (sh :: shs))) h2 ->
+  let keys0 := x_keys (xs_st (xrun repaired p B cap n0 h1)) in
+  let s := xrun repaired p B cap n0 (h1 ++ XImportStart w pass (sh :: shs) :: h2) in
+  sinv_m p g U w (keys0 ++ keys_of w (sh :: shs)) s /\
+  (in_step g s -> status_of (xs_st s) w = Some WReady -> equals_live_all p (xs_st s) (xs_node s)) /\
+  (status_of (xs_st s) w <> Some WReady -> use_wallet (xs_st s) w = UUnready) /\
+  x_dead (xs_st s) = [] /\ xs_crashed s = false.
+Proof. exact import_equals_live_from_genesis. Qed.
+Print Assumptions C07_import_equals_live_from_genesis.
+
+Theorem C07_import_live_from_genesis : forall p g U, (forall b1 b2, In b1 U -> In b2 U -> b_id b1 = b_id b2 -> b1 = b2) ->
+  forall B cap, 0 < B -> forall n0 h1, ninv g U n0 -> gwf p g U B cap n0 (xinit_sim n0) h1 ->
+  forall w pass sh shs, status_of (xs_st (xrun repaired p B cap n0 h1)) w = None ->
+  (forall s, In s (sh :: shs) -> lookupN (x_keys (xs_st (xrun repaired p B cap n0 h1))) s = None) ->
+  forall h2 m, xwf p g U w B cap (xstep repaired p B cap (xrun repaired p B cap n0 h1) (XImportStart w pass (sh :: shs))) h2 ->
+  let s := xrun repaired p B cap n0 (h1 ++ XImportStart w pass (sh :: shs) :: h2) in
+  in_step g s ->
+  (forall k, status_of (xs_st s) w = Some (WImporting k) -> chain_height (xs_node s) < k + Z.of_nat m * B) ->
+  let s' := xrun repaired p B cap n0 (h1 ++ XImportStart w pass (sh :: shs) :: h2 ++ repeat (XBatch w) m) in
+  xs_node s' = xs_node s /\ in_step g s' /\ status_of (xs_st s') w = Some WReady /\
+  equals_live_all p (xs_st s') (xs_node s').
+Proof. exact import_live_from_genesis. Qed.
+Print Assumptions C07_import_live_from_genesis.
+
+(* the history that builds the database of the shared-transaction example is one of them *)
+Example C07_reachable_instance :
+  ninv g0 shared_chain [g0] /\ gwf p0 g0 shared_chain 1000 20000 [g0] (xinit_sim [g0]) hist_shared_pre /\
+  status_of (xs_st (xrun repaired p0 1000 20000 [g0] hist_shared_pre)) 2 = None.
+Proof.
+  split; [|split; [apply gwf_b_sound; vm_compute; reflexivity|vm_compute; reflexivity]].
+  split; [apply wf_chain_b_sound; vm_compute; reflexivity|]. split; [exists []; reflexivity|].
+  intros z [<-|[]]. left. reflexivity.
+Qed.
+
+(* ================================================================== a shared transaction is recorded ONCE (Ledger/ImportProofs5.v) *)
+
+(* [brs_nodup brs]: at most one block record per height, and no record lists a transaction id twice.  It is kept
+   by every operation that writes block records, for ANY store and any node (no invariant needed): *)
+Theorem C07_add_ids_nodup : forall brs h bid ids, brs_nodup brs -> NoDup ids -> brs_nodup (add_ids brs h bid ids).
+Proof. exact add_ids_nodup. Qed.
+Print Assumptions C07_add_ids_nodup.
+
+Theorem C07_batch_keeps_records_nodup : forall fx p B n st w,
+  brs_nodup (x_brecs st) -> brs_nodup (x_brecs (fst (import_batch fx p B n st w))).
+Proof. exact import_batch_nodup. Qed.
+Print Assumptions C07_batch_keeps_records_nodup.
+
+Theorem C07_rollback_keeps_records_nodup : forall fx st h st',
+  xrollback fx st h = XOk st' -> brs_nodup (x_brecs st) -> brs_nodup (x_brecs st').
+Proof. exact xrollback_nodup. Qed.
+Print Assumptions C07_rollback_keeps_records_nodup.
+
+(* announcements: the blocks connected are blocks of the node's (well-formed) chain *)
+Theorem C07_announcement_keeps_records_nodup : forall g U, (forall b1 b2, In b1 U -> In b2 U -> b_id b1 = b_id b2 -> b1 = b2) ->
+  forall fx p n st b st', ninv g U n -> In b U ->
+  xprocess fx p n st b = XOk st' -> brs_nodup (x_brecs st) -> brs_nodup (x_brecs st').
+Proof. exact xprocess_nodup. Qed.
+Print Assumptions C07_announcement_keeps_records_nodup.
+
+(* [recorded_once brs h bid t]: t occurs exactly once (count_occ = 1) in the records of height h, there is exactly
+   one record of that height, it names block bid and lists t.
+   The packaged theorem, with the extra premise that the start state's records are duplicate-free
+   (C07_reachable_records_nodup gives it for the states reached from genesis): at EVERY point of every history
+   (i) the records are duplicate-free, (ii) the creating transaction of every credit and the spender of every
+   spent mark is recorded once in the record of its block; (iii) in step and handed over: EVERY transaction of the
+   node's chain that is relevant to some wallet of the database — it pays a keystore-known script hash
+   ([pays_db]), or a credit of the store carries its spent mark ([spends_marked]), or one of its inputs spends an
+   output of an earlier chain transaction that belongs to a keystore-known script hash ([spends_chain]) — is
+   recorded exactly once in the record of its block: also a transaction shared by several wallets.
+   NOT claimed: that only relevant transactions are listed (it does not follow from the invariant). *)
+Theorem C07_records_once_multi : forall p g U, (forall b1 b2, In b1 U -> In b2 U -> b_id b1 = b_id b2 -> b1 = b2) ->
+  forall w keys0 B cap, 0 < B -> forall pass sh shs c0 n0 all0 st0 st1,
+  ninv g U n0 -> minv p g U w keys0 c0 st0 -> status_of st0 w = None -> (forall s, ownW w keys0 s = None) ->
+  import_start st0 w pass (sh :: shs) = Some st1 -> brs_nodup (x_brecs st0) ->
+  forall h, xwf p g U w B cap {| xs_node := n0; xs_st := st1; xs_all := all0; xs_crashed := false |} h ->
+  let s := fold_left (xstep repaired p B cap) h {| xs_node := n0; xs_st := st1; xs_all := all0; xs_crashed := false |} in
+  brs_nodup (x_brecs (xs_st s)) /\
+  (exists c, minv p g U w (keys0 ++ keys_of w (sh :: shs)) c (xs_st s) /\
+     forall cr b, In cr (credits (x_w (xs_st s))) -> In b c ->
+       (c_height cr = b_height b -> recorded_once (x_brecs (xs_st s)) (b_height b) (b_id b) (c_tx cr)) /\
+       (forall tid i, c_spent cr = Some (tid, i, b_height b) -> recorded_once (x_brecs (xs_st s)) (b_height b) (b_id b) tid)) /\
+  (in_step g s -> status_of (xs_st s) w = Some WReady ->
+   forall b t, In b (xs_node s) -> In t (b_txs b) ->
+     pays_db (xs_st s) t \/ spends_marked (xs_st s) b t \/ spends_chain (xs_st s) (xs_node s) t ->
+     recorded_once (x_brecs (xs_st s)) (b_height b) (b_id b) (t_id t)).
+Proof. exact import_records_once_multi. Qed.
+Print Assumptions C07_records_once_multi.
+
+(* the shared-transaction example above: T (id 5) pays A and B and spends B's coin; after B's rescan it is
+   recorded once in block 2's record *)
+Example C07_records_once_instance :
+  let s_pre := xrun repaired p0 1000 20000 [g0] hist_shared_pre in
+  brs_nodup (x_brecs (xs_st s_pre)) /\
+  exists st1, import_start (xs_st s_pre) 2 22 [2%N] = Some st1 /\
+    recorded_once (x_brecs (fst (import_batch repaired p0 1000 shared_chain st1 2))) 2 2 5.
+Proof.
+  cbv zeta. split; [apply brs_nodup_b_sound; vm_compute; reflexivity|].
+  eexists. split; [vm_compute; reflexivity|]. apply recorded_once_b_sound. vm_compute. reflexivity.
+Qed.
+
+(* ================================================================== TWO wallets restored concurrently (Ledger/ImportProofs6.v) *)
+
+(* w1 is restored into a database of ready wallets (the start state of the *_multi theorems); ANY history h1 of
+   [xwf] (chain events, batches of w1); while the rescan of w1 may still be running, w2 is restored; then ANY
+   history h2 of [xwf2]: the events of [xwf] with rescan batches of EITHER wallet, in any interleaving with each
+   other and with the chain events (the node connects / disconnects / re-connects blocks; announcements:
+   extensions, reorganisations that pull BOTH cursors back, roll-backs; batches that find the node anywhere).
+   [minv2 p g U w1 w2 keysA c st] is the invariant: as [minv], with a cursor of its own for each importing wallet:
+     the credits of w_i    = exactly those of the first top_i+1 blocks of c for w_i's addresses (top_i = cursor
+                             of w_i while importing, height of c once ready), in chain order, spent marks included,
+     the credits of others = exactly those of ALL of c, in chain order
+   (three projections of the ONE credit list).  It holds at EVERY point; in step and both handed over, the whole
+   database equals the live run of ALL wallets; until handed over neither can be selected; no task is dropped. *)
+Theorem C07_two_imports_equal_live : forall p g U, (forall b1 b2, In b1 U -> In b2 U -> b_id b1 = b_id b2 -> b1 = b2) ->
+  forall w1 w2, w1 <> w2 -> forall keys0 B cap, 0 < B ->
+  forall pass1 sh1 shs1 pass2 sh2 shs2 c0 n0 all0 st0 st1,
+  ninv g U n0 -> minv p g U w1 keys0 c0 st0 -> status_of st0 w1 = None -> (forall s, ownW w1 keys0 s = None) ->
+  (forall s, In s (sh1 :: shs1) -> lookupN keys0 s = None) ->
+  import_start st0 w1 pass1 (sh1 :: shs1) = Some st1 ->
+  forall h1, xwf p g U w1 B cap {| xs_node := n0; xs_st := st1; xs_all := all0; xs_crashed := false |} h1 ->
+  let s1 := fold_left (xstep repaired p B cap) h1 {| xs_node := n0; xs_st := st1; xs_all := all0; xs_crashed := false |} in
+  forall st2, import_start (xs_st s1) w2 pass2 (sh2 :: shs2) = Some st2 ->
+  (forall s, In s (sh2 :: shs2) -> lookupN (keys0 ++ keys_of w1 (sh1 :: shs1)) s = None) ->
+  let s1' := {| xs_node := xs_node s1; xs_st := st2; xs_all := xs_all s1; xs_crashed := false |} in
+  forall h2, xwf2 p g U w1 w2 B cap s1' h2 ->
+  let s := fold_left (xstep repaired p B cap) h2 s1' in
+  sinv2 p g U w1 w2 ((keys0 ++ keys_of w1 (sh1 :: shs1)) ++ keys_of w2 (sh2 :: shs2)) s /\
+  (in_step g s -> status_of (xs_st s) w1 = Some WReady -> status_of (xs_st s) w2 = Some WReady ->
+     equals_live_all p (xs_st s) (xs_node s)) /\
+  (forall v, v = w1 \/ v = w2 -> status_of (xs_st s) v <> Some WReady -> use_wallet (xs_st s) v = UUnready) /\
+  x_dead (xs_st s) = [] /\ xs_crashed s = false.
+Proof. exact two_imports_equal_live. Qed.
+Print Assumptions C07_two_imports_equal_live.
+
+(* the steps of the invariant *)
+Theorem C07_two_batch_keeps_invariant : forall p g U, (forall b1 b2, In b1 U -> In b2 U -> b_id b1 = b_id b2 -> b1 = b2) ->
+  forall w1 w2, w1 <> w2 -> forall keysA B c n st, ninv g U n -> 0 < B -> minv2 p g U w1 w2 keysA c st ->
+  minv2 p g U w1 w2 keysA c (fst (import_batch repaired p B n st w1)) /\
+  minv2 p g U w1 w2 keysA c (fst (import_batch repaired p B n st w2)).
+Proof.
+  intros p g U Uids w1 w2 H12 keysA B c n st Hn HB Hinv.
+  split; [apply mbatch2_inv|apply mbatch2_inv_2]; assumption.
+Qed.
+Print Assumptions C07_two_batch_keeps_invariant.
+
+Theorem C07_two_announcement_keeps_invariant : forall p g U, (forall b1 b2, In b1 U -> In b2 U -> b_id b1 = b_id b2 -> b1 = b2) ->
+  forall w1 w2, w1 <> w2 -> forall keysA c n st b st', ninv g U n -> minv2 p g U w1 w2 keysA c st -> In b U -> b <> g ->
+  xprocess repaired p n st b = XOk st' ->
+  exists c', minv2 p g U w1 w2 keysA c' st' /\ incl c' (c ++ n).
+Proof. exact mprocess2_inv. Qed.
+Print Assumptions C07_two_announcement_keeps_invariant.
+
+Theorem C07_two_node_block_always_accepted : forall p g U, (forall b1 b2, In b1 U -> In b2 U -> b_id b1 = b_id b2 -> b1 = b2) ->
+  forall w1 w2, w1 <> w2 -> forall keysA c n st b n1 n2, ninv g U n -> minv2 p g U w1 w2 keysA c st -> n = n1 ++ b :: n2 -> n1 <> [] ->
+  exists st', xprocess repaired p n st b = XOk st' /\ minv2 p g U w1 w2 keysA (n1 ++ [b]) st'.
+Proof. exact mprocess2_on_node. Qed.
+Print Assumptions C07_two_node_block_always_accepted.
+
+(* in step a batch of w1 commits and advances its cursor by B (or hands w1 over), wherever the rescan of w2 is *)
+Theorem C07_two_batch_in_step : forall p g U w1 w2, w1 <> w2 -> forall keysA B n st k, ninv g U n -> 0 < B -> minv2 p g U w1 w2 keysA n st ->
+  status_of st w1 = Some (WImporting k) ->
+  let stop := Z.min (k + B) (chain_height n) in
+  status_of (fst (import_batch repaired p B n st w1)) w1 = Some (if stop =? chain_height n then WReady else WImporting stop).
+Proof. exact mbatch2_progress. Qed.
+Print Assumptions C07_two_batch_in_step.
+
+(* the one-rescan invariant is the case "w2 absent"; restoring w2 keeps the invariant *)
+Theorem C07_two_start : forall p g U w1 w2 keysA c st, w1 <> w2 ->
+  minv p g U w1 keysA c st -> status_of st w2 = None -> (forall sh, ownW w2 keysA sh = None) ->
+  minv2 p g U w1 w2 keysA c st.
+Proof. exact minv_minv2. Qed.
+Print Assumptions C07_two_start.
+
+Theorem C07_two_second_import_start : forall p g U w1 w2 keys0 c st0 pass sh shs st1, w1 <> w2 ->
+  minv2 p g U w1 w2 keys0 c st0 -> status_of st0 w2 = None -> (forall s, ownW w2 keys0 s = None) ->
+  import_start st0 w2 pass (sh :: shs) = Some st1 ->
+  minv2 p g U w1 w2 (keys0 ++ keys_of w2 (sh :: shs)) c st1.
+Proof. exact minv2_import_start. Qed.
+Print Assumptions C07_two_second_import_start.
+
+(* The database of the shared-transaction example (wallet 1 live; block 1's coinbase pays script hash 2 AND script
+   hash 9; T in block 2).  Batch size 1.  Wallet 2 (script hash 2) is restored, one batch (cursor 1); wallet 3
+   (script hash 9) is restored while 2 is importing.  Then: a batch of 3, a batch of 2 (cursors 1 and 2); the node
+   reorganises block 3 away (3' pays wallet 3 another 5); a batch of 2 finds the node off the handler's chain and
+   is refused; the announcement of 3' is processed (both cursors stay <= 2); batches of 3, 2, 3, 3.  The
+   hypotheses of C07_two_imports_equal_live hold; at the end the handler is in step, all three wallets are
+   ready with the balances of the chain, and the coinbase of block 1 — shared by the two restored wallets — is
+   listed once. *)
+Definition tb3' := {| b_id := 13; b_prev := 2; b_height := 3; b_txs := [cb 13 [pay 9 5]] |}.
+Definition U_two : list block := shared_chain ++ [tb3'].
+Definition hist_two : list xevent :=
+  [XBatch 3; XBatch 2; XDetach; XAttach tb3'; XBatch 2; XProcess tb3'; XBatch 3; XBatch 2; XBatch 3; XBatch 3].
+
+Example C07_two_imports_instance :
+  let st0 := xs_st (xrun repaired p0 1000 20000 [g0] hist_shared_pre) in
+  (forall b1 b2, In b1 U_two -> In b2 U_two -> b_id b1 = b_id b2 -> b1 = b2) /\
+  ninv g0 U_two shared_chain /\
+  minv p0 g0 U_two 2 [(1, 1)%N] shared_chain st0 /\ status_of st0 2 = None /\
+  (forall s, ownW 2 [(1, 1)%N] s = None) /\ (forall s, In s [2%N] -> lookupN [(1, 1)%N] s = None) /\
+  exists st1, import_start st0 2 22 [2%N] = Some st1 /\
+    let s0 := {| xs_node := shared_chain; xs_st := st1; xs_all := []; xs_crashed := false |} in
+    xwf p0 g0 U_two 2 1 20000 s0 [XBatch 2] /\
+    let s1 := fold_left (xstep repaired p0 1 20000) [XBatch 2] s0 in
+    status_of (xs_st s1) 2 = Some (WImporting 1) /\
+    exists st2, import_start (xs_st s1) 3 33 [9%N] = Some st2 /\
+      (forall s, In s [9%N] -> lookupN ([(1, 1)%N] ++ keys_of 2 [2%N]) s = None) /\
+      let s1' := {| xs_node := xs_node s1; xs_st := st2; xs_all := xs_all s1; xs_crashed := false |} in
+      xwf2 p0 g0 U_two 2 3 1 20000 s1' hist_two /\
+      let s := fold_left (xstep repaired p0 1 20000) hist_two s1' in
+      in_step g0 s /\ chain_height (xs_node s) = 3 /\
+      status_of (xs_st s) 2 = Some WReady /\ status_of (xs_st s) 3 = Some WReady /\
+      r_total (xreport (xs_st s) 1) = 60 /\ r_total (xreport (xs_st s) 2) = 40 /\ r_total (xreport (xs_st s) 3) = 1005 /\
+      x_brecs (xs_st s) = [{| br_h := 2; br_bid := 2; br_txs := [5%N] |}; {| br_h := 1; br_bid := 1; br_txs := [1%N] |};
+                           {| br_h := 3; br_bid := 13; br_txs := [13%N] |}].
+Proof.
+  cbv zeta.
+  assert (Hwf : wf_chain shared_chain) by (apply wf_chain_b_sound; vm_compute; reflexivity).
+  assert (HU : incl shared_chain U_two) by (apply incl_appl; apply incl_refl).
+  split; [apply ids_b_sound; vm_compute; reflexivity|].
+  split; [split; [exact Hwf|split; [eexists; reflexivity|exact HU]]|].
+  assert (Hm : minv p0 g0 U_two 2 [(1, 1)%N] shared_chain (xs_st (xrun repaired p0 1000 20000 [g0] hist_shared_pre)) /\
+               (forall s, ownW 2 [(1, 1)%N] s = None)).
+  { apply C07_multi_start.
+    - exact Hwf.
+    - eexists; reflexivity.
+    - exact HU.
+    - vm_compute. reflexivity.
+    - vm_compute. reflexivity.
+    - vm_compute. reflexivity.
+    - apply covered_b_sound. vm_compute. reflexivity.
+    - change [(1, 1)%N] with (x_keys (xs_st (xrun repaired p0 1000 20000 [g0] hist_shared_pre))).
+      apply keys_ready_b_sound. vm_compute. reflexivity.
+    - vm_compute. reflexivity.
+    - apply brs_ok_b_sound. vm_compute. reflexivity.
+    - apply brs_le_b_sound. vm_compute. reflexivity. }
+  destruct Hm as [Hm Hnk].
+  split; [exact Hm|]. split; [vm_compute; reflexivity|]. split; [exact Hnk|].
+  split; [intros s [<-|[]]; vm_compute; reflexivity|].
+  eexists. split; [vm_compute; reflexivity|].
+  split; [apply xwf_b_sound; vm_compute; reflexivity|].
+  split; [vm_compute; reflexivity|].
+  eexists. split; [vm_compute; reflexivity|].
+  split; [intros s [<-|[]]; vm_compute; reflexivity|].
+  split; [apply xwf2_b_sound; vm_compute; reflexivity|].
+  vm_compute. repeat split; reflexivity.
+Qed.
